@@ -370,6 +370,10 @@ func TestVerifC09Faults(t *testing.T) {
 			for _, tm := range [][2]int{{50, 50}, {100, 300}, {300, 100}, {200, 200}} {
 				cases = append(cases, tcase{F: f, DialMs: tm[0], DataMs: tm[1]})
 			}
+			// a data timeout of zero (the flag accepts it): every wait for the server times out at once - it is not "no time limit"
+			if r == 0 && (f.Name == "accept and stall" || f.Name == "one byte 05 then stall") {
+				cases = append(cases, tcase{F: f, DialMs: 200, DataMs: 0})
+			}
 			// a data timeout larger than the slack: one data timeout too many exceeds the bound
 			if r == 0 && (f.Name == "accept and stall" || f.Name == "read greeting then stall" || f.Name == "one byte 05 then stall" || f.Name == "one byte 00 then stall") {
 				cases = append(cases, tcase{F: f, DialMs: 200, DataMs: 3000})
